@@ -1,0 +1,26 @@
+//go:build verif
+
+// Contracts for the lvc verifier (comment-only file, compiled only with -tags verif).
+
+package bgv
+
+//@ owned Evaluator evaluatorBuffers Evaluator
+//@ frame Evaluator.* inputs=auto
+
+// ---- copy constructors (property C10) ----
+//@ copy Evaluator.ShallowCopy
+//@   copied evaluatorBase Evaluator Encoder
+//@   fresh evaluatorBuffers
+//@   shared ScaleInvariant
+
+//@ copy Evaluator.WithKey
+//@   shared evaluatorBase evaluatorBuffers Encoder ScaleInvariant
+//@   copied Evaluator
+
+//@ copy evaluatorBase.ShallowCopy
+//@   shared tMontgomery levelQMul pHalf
+//@   copied basisExtenderQ1toQ2
+
+//@ copy Encoder.ShallowCopy
+//@   shared parameters indexMatrix paramsQP qHalf tInvModQ
+//@   fresh bufQ bufT bufB
